@@ -30,7 +30,15 @@ func After[V constraints.Signed](n *V, fn func()) {
 	if *n < 1 {
 		fn()
 	}
-	*n-- // decrease the n as pointer receiver
+	dec(n) // decrease the n as pointer receiver
+}
+
+// dec decreases the counter, unless it already holds the smallest value of its type:
+// decrementing that one would wrap it around to the largest value and re-arm the wrapper.
+func dec[V constraints.Signed](n *V) {
+	if m := *n - 1; m < *n {
+		*n = m
+	}
 }
 
 // Before creates a function wrapper that memoizes its return value.
@@ -38,7 +46,7 @@ func After[V constraints.Signed](n *V, fn func()) {
 // instead of invoking function again. So the wrapper will invoke function at most n-1 times.
 func Before[S ~string, T any, V constraints.Signed](n *V, c *cache.Cache[S, T], fn func() T) T {
 	var memo *cache.Item[T]
-	*n-- // decrease the n as pointer receiver
+	dec(n) // decrease the n as pointer receiver
 	if *n > 0 {
 		return fn()
 	}
